@@ -238,7 +238,7 @@ func checkC11(c *Ctx) error {
 		run := cli.Do(w, "", nil, dir, out, "build", "-i", "in.yaml", "-o", out, "--ignore-missing-params", "--ignore-missing-services")
 		files := map[string]string{"input/in.yaml": yaml, "stdout.txt": firstLines(run.Res.Stdout, 80), "position.txt": b.pos.name}
 		for _, br := range run.Contract() {
-			c.Violate("cli-contract:"+sigWords(br), br, files)
+			c.Side("C10,C12", "cli-contract:"+sigWords(br), br, files)
 		}
 		top := run.Rep.FailingTop()
 		compileStage := top == nil || top.Name == "Compile"
@@ -453,7 +453,7 @@ func c11Rules(c *Ctx) {
 		files := map[string]string{"input/in.yaml": rl.yaml, "stdout.txt": run.Res.Stdout, "rule.txt": rl.name}
 		c.Eval("rule|"+rl.name+"|"+rl.yaml, true)
 		for _, br := range run.Contract() {
-			c.Violate("cli-contract:"+sigWords(br), br, files)
+			c.Side("C10,C12", "cli-contract:"+sigWords(br), br, files)
 		}
 		cls := rl.name
 		if i := strings.Index(cls, ":"); i > 0 {
